@@ -310,3 +310,43 @@ Proof.
   - apply gen_interval_kept_quarter; exact Hs.
   - intros g h. apply gen_interval_test_quarter_whole; exact Hs.
 Qed.
+
+(* ---- the reported maximal cost of sad / ssd (Gen/PointInterval.v sad_cmax / ssd_cmax, regenerated): the integer part
+   is taken of the PRODUCT (largest radiometric difference, squared for ssd, times the window area), for every
+   radiometric unit 1/u; on whole radiometry (u = 1) it is the model's cmax *)
+Lemma gen_cmax_eq : forall u maxl minl maxr minr w,
+  G.sad_cmax u maxl minl maxr minr w
+  = Z.quot (Z.max (Z.abs (maxl - minr)) (Z.abs (maxr - minl)) * (w * w)) u
+  /\ G.ssd_cmax u maxl minl maxr minr w
+     = Z.quot (Z.max ((maxl - minr) * (maxl - minr)) ((maxr - minl) * (maxr - minl)) * (w * w)) (u * u).
+Proof.
+  intros. unfold G.sad_cmax, G.ssd_cmax. rewrite !Z.pow_2_r, Z.pow_1_r, !Z.abs_square. split; reflexivity.
+Qed.
+
+Lemma gen_cmax_model : forall inp,
+  let minl := img_fold Z.min (i_ny inp) (i_nx inp) (i_L inp) in
+  let maxl := img_fold Z.max (i_ny inp) (i_nx inp) (i_L inp) in
+  let minr := img_fold Z.min (i_ny inp) (i_nx inp) (i_R inp) in
+  let maxr := img_fold Z.max (i_ny inp) (i_nx inp) (i_R inp) in
+  G.sad_cmax 1 maxl minl maxr minr (i_w inp) = cmax Sad inp
+  /\ G.ssd_cmax 1 maxl minl maxr minr (i_w inp) = cmax Ssd inp.
+Proof.
+  intros inp minl maxl minr maxr.
+  destruct (gen_cmax_eq 1 maxl minl maxr minr (i_w inp)) as [A B]. rewrite A, B.
+  change (1 * 1) with 1. rewrite !Z.quot_1_r. unfold cmax. split; reflexivity.
+Qed.
+
+(* radiometry in multiples of 1/u (u > 0): the reported cmax is the integer part of (the cmax of the integer images
+   u * image) / u for sad, / u^2 for ssd *)
+Lemma gen_cmax_homogeneous : forall u maxl minl maxr minr w, 0 < u ->
+  G.sad_cmax u maxl minl maxr minr w = G.sad_cmax 1 maxl minl maxr minr w / u
+  /\ G.ssd_cmax u maxl minl maxr minr w = G.ssd_cmax 1 maxl minl maxr minr w / (u * u).
+Proof.
+  intros u maxl minl maxr minr w Hu.
+  destruct (gen_cmax_eq u maxl minl maxr minr w) as [A B]. destruct (gen_cmax_eq 1 maxl minl maxr minr w) as [A1 B1].
+  rewrite A, B, A1, B1. change (1 * 1) with 1. rewrite !Z.quot_1_r.
+  split; apply Z.quot_div_nonneg; try lia.
+  - apply Z.mul_nonneg_nonneg; [lia | apply Z.square_nonneg].
+  - apply Z.mul_nonneg_nonneg; [|apply Z.square_nonneg].
+    pose proof (Z.square_nonneg (maxl - minr)). lia.
+Qed.
